@@ -282,6 +282,42 @@ fn run_seed(ctx: &RunCtx, tier: Tier) -> RunOut {
             muts.push(("hash bytes rotated".into(), format!("{sig_hex}:{}", hex::encode(&r))));
         }
     }
+    // well-formed DER signatures whose scalars are out of range for P-256 (0, the group order n and
+    // beyond) or at its edges, behind the correct hash: must be an error, not a panic
+    {
+        fn der_int(be: &[u8]) -> Vec<u8> {
+            let mut v: Vec<u8> = be.iter().cloned().skip_while(|b| *b == 0).collect();
+            if v.is_empty() {
+                v.push(0);
+            }
+            if v[0] & 0x80 != 0 {
+                v.insert(0, 0);
+            }
+            let mut out = vec![0x02, v.len() as u8];
+            out.extend(v);
+            out
+        }
+        let n: [u8; 32] = [
+            0xFF, 0xFF, 0xFF, 0xFF, 0x00, 0x00, 0x00, 0x00, 0xFF, 0xFF, 0xFF, 0xFF, 0xFF, 0xFF, 0xFF, 0xFF, 0xBC, 0xE6, 0xFA, 0xAD, 0xA7, 0x17, 0x9E, 0x84, 0xF3, 0xB9, 0xCA, 0xC2, 0xFC, 0x63,
+            0x25, 0x51,
+        ];
+        let mut n_minus_1 = n;
+        n_minus_1[31] -= 1;
+        let mut n_plus_1 = n;
+        n_plus_1[31] += 1;
+        let mut one = [0u8; 32];
+        one[31] = 1;
+        let scalars: Vec<(&str, [u8; 32])> = vec![("0", [0u8; 32]), ("1", one), ("n-1", n_minus_1), ("n", n), ("n+1", n_plus_1), ("2^256-1", [0xFF; 32])];
+        for (rn, r) in &scalars {
+            for (sn, sv) in &scalars {
+                let mut body = der_int(r);
+                body.extend(der_int(sv));
+                let mut der = vec![0x30, body.len() as u8];
+                der.extend(body);
+                muts.push((format!("DER signature with r = {rn}, s = {sn}"), format!("{}:{hash_hex}", hex::encode(der))));
+            }
+        }
+    }
     muts.push(("first 16 bytes of the hash only".into(), format!("{sig_hex}:{}", &hash_hex[..32])));
     muts.push(("hash followed by 00".into(), format!("{sig_hex}:{hash_hex}00")));
     muts.push(("empty hash".into(), format!("{sig_hex}:")));
